@@ -279,3 +279,17 @@ Fixpoint first_diff (a b : list obs) (i : Z) : Z :=
 Definition scen_diff (iv : Z) (cm : list (Z * list Z)) (cap : nat) (g : block) (all : list Z)
   (evs : list (block * Z)) (observed : list obs) : Z :=
   first_diff (trace iv (assoc_cluster cm) cap g all evs (init g)) observed 1.
+
+(** ---- the other consensus types anchored by C09: what THEIR VerifyTimestamp / VerifySign /
+    IsBlockValid test (a triple of answers).
+    consensus/impl/raftv2/blockfactory.go: VerifyTimestamp = true, VerifySign =
+    block.VerifySign, IsBlockValid = the key in the header parses (block.BPID()).
+    consensus/impl/sbp/sbp.go: all three accept every block. *)
+Definition raft_checks (key_parses sig_ok : bool) : bool * bool * bool := (true, sig_ok, key_parses).
+Definition sbp_checks (key_parses sig_ok : bool) : bool * bool * bool := (true, true, true).
+Definition checks_accept (c : bool * bool * bool) : bool := let '(t, s, v) := c in t && s && v.
+(* case: consensus (0 raft, 1 sbp), key_parses, sig_ok (real block.VerifySign), observed answers *)
+Definition other_case_ok (c : (Z * bool * bool) * (bool * bool * bool)) : bool :=
+  let '((k, kp, sg), (ot, os, ov)) := c in
+  let '(t, s, v) := if k =? 0 then raft_checks kp sg else sbp_checks kp sg in
+  Bool.eqb t ot && Bool.eqb s os && Bool.eqb v ov.
